@@ -448,8 +448,58 @@ def gen_edit(rng, tree, cfg):
     return op
 
 
+def gen_edge_edit(rng, tree, cfg):
+    """An edit that removes / replaces the FIRST or LAST element of a sequence whose neighbour element sits on another
+    line: afterwards the container (and every position-less ancestor whose location is computed from it) starts or ends
+    on a different line than before."""
+    c = []
+    for path, node, _, _, _ in [((), tree, None, None, None)] + all_nodes(tree):
+        for f in list_fields(node):
+            lst = getattr(node, f)
+            if len(lst) >= 2 and all(hasattr(x, 'end_lineno') for x in (lst[0], lst[1], lst[-1], lst[-2])):
+                if lst[0].end_lineno < lst[1].lineno:
+                    c.append((path, f, 0, len(lst)))
+                if lst[-2].end_lineno < lst[-1].lineno:
+                    c.append((path, f, len(lst) - 1, len(lst)))
+        if isinstance(node, ast.Compare) and node.left.end_lineno < node.comparators[0].lineno:
+            c.append((path, '_all', 0, len(node.comparators) + 1))
+    if not c:
+        return None
+    path, f, i, n = rng.choice(c)
+    kind = rng.choice(['put_slice', 'put_slice', 'cut_slice', 'view_delitem', 'remove', 'cut', 'replace'])
+    opts = enc_opts(gen_options(rng, cfg.get('opt_rate', 0.5), cfg.get('opt_allow')))
+    if kind in ('remove', 'cut', 'replace') and f != '_all':
+        op = {'k': kind, 'path': [list(p) for p in path] + [[f, i]], 'opts': opts}
+        if kind == 'replace':
+            node = getattr(resolve_node(tree, path), f)[i]
+            op['code'] = gen_code(rng, node_cat(node, resolve_node(tree, path), f), 1, cfg.get('forms', ('src', 'src', 'ast', 'fst')), cfg.get('uniq'))
+        return op
+    op = {'k': 'put_slice' if kind in ('remove', 'cut', 'replace') else kind, 'path': [list(p) for p in path], 'field': f, 'opts': opts}
+    if op['k'] == 'put_slice':
+        op.update(start=i, stop=i + 1, code={'form': 'none'}, one=False)
+    elif op['k'] == 'cut_slice':
+        op.update(start=i, stop=i + 1)
+    else:
+        op['idx'] = i if rng.random() < 0.5 else i - n
+        op.pop('opts')
+    return op
+
+
+def resolve_node(tree, path):
+    node = tree
+    for f, i in path:
+        node = getattr(node, f)
+        if i is not None:
+            node = node[i]
+    return node
+
+
 def _gen_edit(rng, tree, cfg):
     """Generate one edit descriptor against the current pure AST `tree` (a Module)."""
+    if cfg.get('p_edge') and rng.random() < cfg['p_edge']:
+        op = gen_edge_edit(rng, tree, cfg)
+        if op is not None:
+            return op
     weights = cfg.get('weights', DEFAULT_WEIGHTS)
     kinds = sorted(weights)
     kind = rng.choices(kinds, [weights[k] for k in kinds])[0]
